@@ -2,10 +2,12 @@ import vflib
 WRAPS = ("psGetEntropy", "gettimeofday", "time", "clock_gettime")
 def run(ctx):
     st = [dict(variant="asan", name="c06", sources=["checks/c06_sequence.c", "harness/mx_wraps.c"], wraps=WRAPS, libs=["-lcrypto"], shards=vflib.NCPU, timeout=7200 if ctx.thorough else 1500)]
-    rule = ("Each case = one single-step deviation (delete / duplicate / swap adjacent / inject one of 16 handshake message types taken from the honest run where available / premature "
+    rule = ("Each case = one single-step deviation (delete / duplicate / swap adjacent / inject one of 16 handshake message types once or twice, taken from the honest run or - for resumed modes - from the priming full handshake / premature "
             "ChangeCipherSpec, at every position) of one flight addressed to the receiver, per mode (version x key exchange x resumed/ticket/client-auth) and role, executed on a fork()ed "
             "clone: the flight is re-framed to one handshake message per record (TLS 1.3 protected flights opened and re-sealed with the sender's handshake key) and fed message by "
-            "message; a reference grammar per mode decides where the sequence becomes illegal. distinct_nontrivial = distinct (mode, role, flight, deviation, position, type) executed.")
+            "message; a reference grammar per mode decides where the sequence becomes illegal. The deviant peer is transcript-consistent: every Finished fed to the receiver is recomputed over the "
+            "receiver's own transcript and sealed with the sender's keys, and (TLS <= 1.2) the sender's running handshake hash is re-based on the receiver's view, so completion is decided by the "
+            "receiver's state machine alone; completion after a grammar-illegal sequence is the violation. distinct_nontrivial = distinct (mode, role, flight, deviation, position, type) executed.")
     return vflib.std_run(ctx, st, "exploration", rule,
         ["the reference grammar is a reading of RFC 5246/6347/8446/5077 restricted to the messages this build can emit", "DTLS: only the completion clause is judged (duplicates and out-of-order messages may be ignored)",
-         "a transcript-consistent deviant peer (recomputed Finished) is not built; a lax state machine shows as liveness after the illegal message"], min_nontrivial=500)
+         "the deviant peer knows the session secrets (it is the authenticated peer or an unauthenticated one, never a man in the middle); DTLS and TLS 1.3 senders are not re-based (TLS 1.3 receivers complete without the sender's cooperation)"], min_nontrivial=500)
